@@ -809,6 +809,30 @@ func (w *zzWorld) checkDetails(label string) {
 					w.wantDetails(d, t, label)
 				}
 			}
+			// previous output scripts: for exactly those inputs that spend a
+			// wallet credit of a known transaction, in input order
+			if l.status[t] != zzUnknown {
+				var blk *Block
+				if l.status[t] == zzMined {
+					blk = &zzBlock(l.height[t], l.variant[t]).Block
+				}
+				got, err := w.store.PreviousPkScripts(ns, x.rec, blk)
+				must(err)
+				var want [][]byte
+				for _, in := range x.def.ins {
+					if in.parent < 0 || l.status[in.parent] == zzUnknown {
+						continue
+					}
+					if isC, _ := zzIsCredit(&w.txs[in.parent].def, int(in.idx)); isC {
+						want = append(want, []byte{0x51, byte(in.parent), byte(in.idx)})
+					}
+				}
+				okScripts := len(got) == len(want)
+				for k := 0; okScripts && k < len(want); k++ {
+					okScripts = len(got[k]) == 3 && got[k][0] == want[k][0] && got[k][1] == want[k][1] && got[k][2] == want[k][2]
+				}
+				verifrt.Assert(okScripts, label+"-previous-pkscripts")
+			}
 			// unique lookups: unmined slot and every candidate block
 			u, err := w.store.UniqueTxDetails(ns, &x.hash, nil)
 			must(err)
